@@ -18,17 +18,21 @@ def sh(cmd, cwd=None, timeout=3000):
 
 
 def main():
-    for pid in sys.argv[1:]:
-        wt = "/tmp/mut_%s" % pid
+    args = sys.argv[1:]
+    rnd = 1
+    if args and args[0] == "--round":
+        rnd = int(args[1]); args = args[2:]
+    for pid in args:
+        wt = ("/tmp/mut_%s" if rnd == 1 else "/tmp/m2_%s") % pid
         for k in (1, 2, 3):
             patch = "%s/out/patch%d.diff" % (wt, k)
             demo = "%s/out/demo%d.rs" % (wt, k)
             if not os.path.exists(patch):
                 continue
-            dst = "/verif/seeded/%s_%d" % (pid, k)
+            dst = "/verif/seeded/%s_%d" % (pid, k + 2 * (rnd - 1))
             if os.path.exists(os.path.join(dst, "meta.json")):
                 continue
-            meta = {"property": pid, "variant": k, "ran": []}
+            meta = {"property": pid, "variant": k + 2 * (rnd - 1), "round": rnd, "ran": []}
             env = "CARGO_TARGET_DIR=%s/target CARGO_NET_OFFLINE=true" % wt
             feat = " --features utils" if pid == "C18" else ""
             sh("git checkout -- . && git clean -fdq tests/demo*.rs", cwd=wt)
